@@ -107,17 +107,19 @@ def _strategy_builder(make_strategy, weights=None, with_replier=False):
     def build(seed, params):
         p = P(params, seed)
         sink = Sink("sink")
-        backends: list = list(_servers(p, 3, sink))
+        backends: list = list(_servers(p, p.count(0, 3), sink))
         if with_replier:
             # a backend that completes its event only after the service time, so that the
             # `_lb_response` hook carries a positive response time (Server answers at enqueue)
-            backends.append(Replier("replier", p.lat(3), downstream=sink, capacity=p.cap(1)))
+            post = Server("post", concurrency=1, service_time=ConstantLatency(p.lat(4)), downstream=sink)
+            backends.append(Replier("replier", p.lat(3), downstream=post, capacity=p.cap(1)))
         strategy = make_strategy(seed)
         lb = LoadBalancer("lb", strategy=strategy)
         for i, b in enumerate(backends):
             lb.add_backend(b, weight=(weights[i % len(weights)] if weights else 1))
         arr = p.arrivals(12)
-        sim = make_sim([lb, sink, *backends], p.end())
+        extra = [post] if with_replier else []
+        sim = make_sim([lb, sink, *backends, *extra], p.end())
         _traffic(sim, lb, arr)
         comps = {"lb": lb, "sink": sink, **{b.name: b for b in backends}}
         return Scenario(sim, comps, FAMILY, True, len(arr))
@@ -166,7 +168,7 @@ def _ops_scenario(seed, params, on_no_backend, strategy):
     p = P(params, seed)
     rng = random.Random(seed)
     sink = Sink("sink")
-    backends = _servers(p, 3, sink)
+    backends = _servers(p, p.count(0, 3, hi=9), sink)
     spare = Server("spare", concurrency=p.cap(1), service_time=ConstantLatency(p.lat(4)), downstream=sink)
     lb = LoadBalancer("lb", backends=backends, strategy=strategy, on_no_backend=on_no_backend)
     step = p.lat(5)
@@ -270,7 +272,7 @@ def health_crash_restart(seed, params):
     arr = p.arrivals(8)
     iv, to, t0, out0, out1, stop = _hc_times(p, arr)
     sink = Sink("sink")
-    servers = _servers(p, 3, sink, first_lat=2)
+    servers = _servers(p, p.count(0, 3, lo=2, hi=9), sink, first_lat=2)
     lb = LoadBalancer("lb", backends=servers, strategy=RoundRobin(), on_no_backend="queue")
     hc = HealthChecker(
         "hc", lb, interval=iv, timeout=to, healthy_threshold=1, unhealthy_threshold=3, check_event_type="ping"
@@ -321,3 +323,107 @@ def health_all_backends_down(seed, params):
     sim.schedule(ev(stop, "stop", st))
     comps = {"lb": lb, "hc": hc, "sink": sink, **{b.name: b for b in backs}}
     return Scenario(sim, comps, FAMILY, True, len(arr) + len(wave) + 2)
+
+
+# ----------------------------------------------------------------------
+# structural extremes: ONE backend, 9..12 backends (every strategy in one scenario)
+
+
+def _all_strategies(seed, params, n_backends, shared):
+    p = P(params, seed)
+    sink = Sink("sink")
+    n = n_backends(p)
+    ents: list = [sink]
+    lbs = []
+    pool = _servers(p, n, sink, prefix="shared") if shared else None
+    if pool:
+        ents.extend(pool)
+    for k, (name, (mk, weights, _r)) in enumerate(_STRATEGIES.items()):
+        backs = pool if pool else _servers(p, n, sink, prefix=f"{name}_", first_lat=k)
+        if not pool:
+            ents.extend(backs)
+        lb = LoadBalancer(f"lb_{name}", strategy=mk(seed), on_no_backend="queue" if k % 2 else "reject")
+        for i, b in enumerate(backs):
+            lb.add_backend(b, weight=(weights[i % len(weights)] if weights else 1))
+        lbs.append(lb)
+    ents.extend(lbs)
+    arr = p.arrivals(18)
+    sim = make_sim(ents, p.end())
+    for i, t in enumerate(arr):
+        sim.schedule(ev(t, "Request", lbs[i % len(lbs)], client_id=f"client-{i % 5}", key=f"k{i % 7}", seq=i))
+    comps = {"sink": sink, **{lb.name: lb for lb in lbs}}
+    return Scenario(sim, comps, FAMILY, True, len(arr))
+
+
+@scenario("load_balancer.one_backend_every_strategy", FAMILY)
+def one_backend_every_strategy(seed, params):
+    """Nine balancers (one per strategy), each in front of exactly ONE Server."""
+    return _all_strategies(seed, params, lambda p: 1, shared=False)
+
+
+@scenario("load_balancer.many_backends_every_strategy", FAMILY)
+def many_backends_every_strategy(seed, params):
+    """Nine balancers (one per strategy) sharing the same 9..12 Servers (fewer requests than backends)."""
+    return _all_strategies(seed, params, lambda p: p.count(0, 10, lo=9, hi=12), shared=True)
+
+
+# ----------------------------------------------------------------------
+# HealthChecker with sibling parameters out of proportion
+
+
+def _hc_extreme(seed, params, timeout_of, backend_lat_of, thresholds=(1, 1)):
+    p = P(params, seed)
+    arr = p.arrivals(6)
+    t0 = min(arr)
+    n = p.count(0, 3, hi=10)
+    iv = period(p, 0, 120 if n > 5 else 300)
+    iv_ns = max(1, int(iv * 1e9))
+    to = timeout_of(p, iv)
+    sink = Sink("sink")
+    backs: list = []
+    for i in range(n):
+        if i % 2 == 0:
+            # answers the probe only after its service time (a Server answers at enqueue time)
+            backs.append(Replier(f"r{i}", backend_lat_of(p, iv, to, i), downstream=sink, capacity=None))
+        else:
+            backs.append(Server(f"s{i}", concurrency=1, service_time=ConstantLatency(backend_lat_of(p, iv, to, i)), downstream=sink))
+    lb = LoadBalancer("lb", backends=backs, strategy=RoundRobin(), on_no_backend="reject")
+    hc = HealthChecker("hc", lb, interval=iv, timeout=to, healthy_threshold=thresholds[0], unhealthy_threshold=thresholds[1])
+    stop = t0 + 14 * iv_ns
+
+    def control(proc, event):
+        if event.event_type == "begin":
+            return [hc.start()]
+        hc.stop()
+        proc.done += 1
+        return None
+
+    ctl = Proc("control", control)
+    sim = make_sim([lb, hc, sink, ctl, *backs], p.end())
+    wave = _hc_wave(t0, stop, 30)
+    _traffic(sim, lb, arr + wave)
+    sim.schedule(ev(t0, "begin", ctl))
+    sim.schedule(ev(stop, "end", ctl))
+    comps = {"lb": lb, "hc": hc, "sink": sink, **{b.name: b for b in backs}}
+    return Scenario(sim, comps, FAMILY, True, len(arr) + len(wave) + 2)
+
+
+@scenario("load_balancer.health_timeout_tiny", FAMILY)
+def health_timeout_tiny(seed, params):
+    """timeout = 1 ns << backend latency, thresholds 1: generator backends always time out, late answers ignored."""
+    return _hc_extreme(seed, params, lambda p, iv: 1e-9, lambda p, iv, to, i: below(p.lat(1 + i), iv))
+
+
+@scenario("load_balancer.health_timeout_almost_interval", FAMILY)
+def health_timeout_almost_interval(seed, params):
+    """timeout just below the interval (the constructor rejects >=); backends answer around the timeout / after it."""
+    return _hc_extreme(
+        seed, params, lambda p, iv: iv * (1.0 - 1e-6),
+        lambda p, iv, to, i: iv * [0.999999, 2.5, 0.5, 1.0, 1.0, 0.3][i % 6],
+    )  # fmt: skip
+
+
+@scenario("load_balancer.health_slow_backends_thresholds_one", FAMILY)
+def health_slow_backends_thresholds_one(seed, params):
+    """Backend latency >> interval (answers arrive several cycles late while the next check is pending)."""
+    return _hc_extreme(seed, params, lambda p, iv: below(p.lat(1), iv), lambda p, iv, to, i: iv * (3.3 + i))
